@@ -5,7 +5,7 @@ replayed and compared step by step with a fresh twin)."""
 import random
 
 from .. import eworld
-from ..dworld import DWorld, gen_filter, FEATURE_TYPES, LEVELS, BUILDERS, make_observer
+from ..dworld import DWorld, gen_filter, FEATURE_TYPES, LEVELS, BUILDERS, make_observer, mark_manual
 from ..dworld import observe_dispatcher as _observe_dispatcher
 from ..instances import gen_instance, n_ops
 from ..util import stream, cjson, h64
@@ -83,7 +83,7 @@ def generate(seed, tier):
     spec = gen_instance(rng, sparse_ids=0.03, max_jobs=4, max_machines=4, max_ops=4, positive=True if names else None)
     n = n_ops(spec)
     mk = lambda k: [["dispatch", rng.randrange(64), rng.randrange(64), int(rng.random() < 0.5)] for _ in range(k)]  # noqa: E731
-    cfg = {"instance": spec, "filter": names, "filter_style": style, "observers": gen_observer_set(rng)}
+    cfg = {"instance": spec, "filter": names, "filter_style": style, "observers": mark_manual(stream(seed, "c12-manual"), gen_observer_set(rng), 0.06)}
     if rng.random() < 0.15:
         # world A starts with another filter, is looked at, and gets the configured filter assigned through the
         # public attribute before its first reset; from that reset on it must equal the twin built with it
@@ -214,6 +214,26 @@ def execute_env(case, ctx):
             return
         concrete.append(r)
         trace_b.append((eworld.obs_plain(o[0]), float(o[1]), bool(o[2]), b.observe()))
+    if b.multi:
+        # the freshly constructed objects for this instance: a single-instance environment built directly from the
+        # same configuration; the multi environment's episode must be indistinguishable from it
+        spec = {"jobs": [[[list(ms), d] for ms, d in job] for job in b.jobs], "name": b.single.instance.name}
+        c = eworld.EnvWorld({**cfg, "env": "single", "instance": spec, "render": False}, ctx)
+        if not c.dead and c.reset() is not None and not c.dead:
+            got = [(None, None, c.observe())]
+            for r in concrete:
+                o = c.step(*r)
+                if c.dead:
+                    break
+                got.append((float(o[1]), bool(o[2]), c.observe()))
+            else:
+                for i, (g, t) in enumerate(zip(got, trace_b)):
+                    when = f"step {i} of the multi environment's first episode"
+                    if (g[0], g[1]) != (t[1], t[2]):
+                        ctx.fail("multi_episode_equals_fresh_single_env", f"{when}: (reward, done) = {(t[1], t[2])}, a fresh single environment with the same configuration and instance gives {(g[0], g[1])}", what="reward_done")
+                    if cjson(g[2]) != cjson(t[3]):
+                        ctx.fail("multi_episode_equals_fresh_single_env", f"{when}: differs from a fresh single environment with the same configuration and instance at {diff_keys(g[2], t[3])}", what="internals")
+                ctx.probe("multi_vs_fresh_single")
     h1 = case["h1"]
     only = case.get("only")
     for k in range(len(h1) + 1):
